@@ -130,6 +130,18 @@ def env_induction(rep, orders):
                 raise ToolError(f"Apalache: EnvInd {what} failed:\n{out[-1500:]}")
             rep.notes.append(f"Apalache (EnvInd.tla, unbounded time and integers, the extracted read orders): {what}")
         rep.extra["symbolic_obligations"] = rep.extra.get("symbolic_obligations", 0) + 2
+        # the same as a TLAPS proof (assumes the code's orders), checked by tlapm
+        import re
+        d = os.path.join(apa, "tlaps")
+        os.makedirs(d, exist_ok=True)
+        for f in ("EnvInd.tla", "EnvIndProof.tla"):
+            shutil.copy(os.path.join(cb.SPEC, f), d)
+        p = cb.run(["timeout", "900", "tlapm", "--threads", "8", "--cleanfp", "EnvIndProof.tla"], cwd=d, timeout=950)
+        m = re.search(r"All (\d+) obligations proved", p.stdout + p.stderr)
+        if not m:
+            raise ToolError("tlapm: EnvIndProof.tla is not proved:\n" + (p.stdout + p.stderr)[-1500:])
+        rep.notes.append(f"TLAPS (EnvIndProof.tla, the code's read orders assumed): Spec => []Containment, all {m.group(1)} obligations proved ({p.wall:.0f}s)")
+        rep.extra["symbolic_obligations"] += int(m.group(1))
     else:
         rep.notes.append(f"EnvInd.tla: the extracted read orders {orders} are not the ones the envelope argument rests on; induction not attempted")
     for ctl in ("PollerSwapped", "ClientSwapped"):
